@@ -172,6 +172,9 @@ type astate struct {
 	flags    []string // violations noticed on this path (unguarded advance, …)
 	nloop    int
 	tag      string // position term at which the enclosing switch read buffer[position]
+	// pend: a boolean variable defined from an expression in the header of the if that tests it
+	// (if ok := <predicate>; !ok {…}): the expression is evaluated when the variable is tested
+	pend map[string]ast.Expr
 }
 
 func (s *astate) clone() *astate {
@@ -187,6 +190,12 @@ func (s *astate) clone() *astate {
 	}
 	c.hist = append([]string{}, s.hist...)
 	c.flags = append([]string{}, s.flags...)
+	if len(s.pend) > 0 {
+		c.pend = map[string]ast.Expr{}
+		for k, v := range s.pend {
+			c.pend[k] = v
+		}
+	}
 	return c
 }
 
@@ -597,6 +606,10 @@ func (f *flow) valueTerm(e ast.Expr, s *astate) (string, bool) {
 
 // stmt: transfer of a non-branching node. Returns successor states (nil entry = path ended).
 func (f *flow) stmt(n ast.Node, s *astate) []*astate {
+	if len(s.pend) > 0 {
+		f.und = append(f.und, "a boolean variable is defined and not tested at once: "+nodeStr(f.gf.in.Fset, n))
+		return nil
+	}
 	switch x := n.(type) {
 	case *ast.AssignStmt:
 		// memo lookup: memoized, ok := memoization[memoKey[U]{id, position}]
@@ -697,6 +710,21 @@ func (f *flow) stmt(n ast.Node, s *astate) []*astate {
 					if ok1 && ok2 {
 						c := s.clone()
 						c.hist = append(c.hist, fmt.Sprintf("text=buffer[%s:%s]", lo, hi))
+						return []*astate{c}
+					}
+				}
+			}
+		}
+		// v := <boolean expression> in the header of the if that tests v
+		if x.Tok == token.DEFINE && len(x.Lhs) == 1 && len(x.Rhs) == 1 {
+			if id, ok := x.Lhs[0].(*ast.Ident); ok {
+				if tv, ok := f.info.Types[x.Rhs[0]]; ok && tv.Type != nil {
+					if b, ok := tv.Type.Underlying().(*types.Basic); ok && b.Info()&types.IsBoolean != 0 {
+						c := s.clone()
+						if c.pend == nil {
+							c.pend = map[string]ast.Expr{}
+						}
+						c.pend[id.Name] = x.Rhs[0]
 						return []*astate{c}
 					}
 				}
@@ -850,6 +878,20 @@ func (f *flow) cond(e ast.Expr, s *astate) (t, fa []*astate) {
 	if u, ok := e.(*ast.UnaryExpr); ok && u.Op == token.NOT {
 		a, b := f.cond(u.X, s)
 		return b, a
+	}
+	if tv, ok := f.info.Types[e]; ok && tv.Value != nil && tv.Value.Kind() == constant.Bool {
+		// a constant condition
+		if constant.BoolVal(tv.Value) {
+			return []*astate{s.clone()}, nil
+		}
+		return nil, []*astate{s.clone()}
+	}
+	if id, ok := e.(*ast.Ident); ok && s.pend[id.Name] != nil {
+		// the variable of the if header: its defining expression decides
+		c := s.clone()
+		ex := c.pend[id.Name]
+		delete(c.pend, id.Name)
+		return f.cond(ex, c)
 	}
 	if id, ok := e.(*ast.Ident); ok && id.Name == "ok" {
 		// memo lookup result
